@@ -202,9 +202,9 @@ pub const CONTEXTS: [&str; 82] = [
     // separation by TAB only
     "a:\t", "-\t", "?\t", "[a,\t", "{a:\t", "a:\t\t", "- a:\t", "!t\t", "&a\t", "|\t", "%YAML\t", "---\t",
 ];
-pub const FOLLOW_ASCII: [char; 34] = [
+pub const FOLLOW_ASCII: [char; 38] = [
     'a', 'Z', '0', '9', ' ', '\t', '\n', '\r', '\0', '-', '.', ':', '?', ',', '[', ']', '{', '}', '#', '&', '*', '!', '|', '>', '\'', '"', '%', '@', '`',
-    '\\', '_', '~', '/', '\u{7f}',
+    '\\', '_', '~', '/', '\u{7f}', '\u{c}', '\u{b}', '\u{1b}', '\u{1}',
 ];
 pub const SUFFIXES: [&str; 5] = ["", "]", " x", "\n", "}: b\n"];
 
